@@ -506,7 +506,7 @@ Qed.
    leave without cleanup (by bg_view_numbers_cleanup it is the same for both variants) *)
 Theorem numbers_cleanup_bg c crit k n m t0 off ops closed cur :
   numkcfg (nobg c) crit k -> klim k = Some (n, m) -> Forall basic_op ops ->
-  sfx_ok (c_spec c) -> (N.of_nat (length closed) <= 100000)%N ->
+  sfx_ok (c_spec c) ->
   a_run None ops (snd (run (fst (step (sys0 t0 off) (OStart (nobg c)))) ops)) = Some (closed, cur) ->
   let f := wfs (s_w (fst (run (sys0 t0 off) (OStart c :: ops ++ [OStop])))) in
   let L := length closed in let lo := L - (n + m) in let mid := L - n in
@@ -524,12 +524,12 @@ Theorem numbers_cleanup_bg c crit k n m t0 off ops closed cur :
   /\ written ops = concat (firstn lo closed) ++ concat (map (fun i => data_at f (entry c mid i)) (seq lo (L - lo))) ++ cur
   /\ (exists fl, file_of f (cname c) = Some fl /\ fdata fl = cur /\ fgz fl = 0%N /\ fdir fl = false).
 Proof.
-  intros Hcfg Hk Hb Hsfx HL Ea f.
+  intros Hcfg Hk Hb Hsfx Ea f.
   assert (Hside : kside (nobg c) k (nclosed (a_run None ops (snd (run (fst (step (sys0 t0 off) (OStart (nobg c)))) ops))))).
-  { rewrite Ea. unfold kside. rewrite Hk. split; assumption. }
+  { rewrite Ea. unfold kside. rewrite Hk. exact Hsfx. }
   destruct (bg_worlds_numbers_cleanup c crit k t0 off ops Hcfg Hb Hside) as [_ [E _]]. cbn zeta in E.
   unfold f. rewrite E.
-  exact (numbers_cleanup_properties (nobg c) crit k n m t0 off ops closed cur Hcfg Hk Hb Hsfx HL Ea).
+  exact (numbers_cleanup_properties (nobg c) crit k n m t0 off ops closed cur Hcfg Hk Hb Hsfx Ea).
 Qed.
 
 (* size criterion: the view is a function of the operations *)
@@ -612,7 +612,7 @@ Proof.
   assert (Es : s_run 3 None ex_ops = Some (closed, cur)) by (vm_compute; reflexivity).
   pose proof (numbers_cleanup_partition_bg exb_c (KLogGz 1 1) 3 0 0 ex_ops (ex_numkcfg _ _) ex_ops_basic) as T.
   cbv zeta in T. rewrite Es in T. fold f in T.
-  destruct T as [_ V]. { split; [exact ex_sfx_ok | vm_compute; discriminate]. }
+  destruct T as [_ V]. { exact ex_sfx_ok. }
   exact V.
 Qed.
 
